@@ -285,6 +285,12 @@ def retFx (s : ISrc) (t : Nat) (c : FCfg) (x : DThread) (op : Op) (o : POut) (ev
               { x with dead := true, lbuf := none },
             evs ++ vevs ++ dropEvs s rest ++ [.panic "closure"], true)
 
+/-- the protocol event of the step, as a list -/
+def emitEvs (s : ISrc) (t : Nat) (core : Cfg) : List Ev :=
+  match emit s.fn t core with
+  | some e => [e]
+  | none => []
+
 /-- One step of thread `t`, protocol state excluded: the deco state, the events, and whether the protocol
 machine makes its step (`core'` is that next protocol state, for reading only). -/
 def stepAux (s : ISrc) (t : Nat) (c : FCfg) (core' : Cfg) : FCfg × List Ev × Bool :=
@@ -301,7 +307,7 @@ def stepAux (s : ISrc) (t : Nat) (c : FCfg) (core' : Cfg) : FCfg × List Ev × B
     | _ =>
       -- a protocol step
       let pcOld := (c.core.th t).pc
-      let evs : List Ev := match emit s.fn t c.core with | some e => [e] | none => []
+      let evs : List Ev := emitEvs s t c.core
       let nOuts := (c.core.th t).outs.length
       let newOut : Option POut := ((core'.th t).outs.drop nOuts).head?
       let r := insFx s c x pcOld (loopParams op).isSome evs
@@ -322,13 +328,16 @@ theorem step_core (s : ISrc) (t : Nat) (c : FCfg) :
   unfold step
   by_cases h : (stepAux s t c (stepW s.fn t c.core)).2.2 <;> simp [h]
 
+/-- the elements still sitting in a thread's buffered iterator -/
+def bufSomes (x : DThread) : List Nat :=
+  match x.buf with
+  | some l => somes l
+  | none => []
+
 /-- Owner phase (main thread, after all threads ended). -/
 def owner (s : ISrc) (nThreads : Nat) (c : FCfg) (op : OwnerOp) : FCfg × List Ev :=
   -- 1. the threads' buffered iterators are dropped, in thread order
-  let bufDrops : List Nat := (List.range nThreads).flatMap fun t =>
-    match (c.d t).buf with
-    | some l => somes l
-    | none => []
+  let bufDrops : List Nat := (List.range nThreads).flatMap fun t => bufSomes (c.d t)
   let c := { c with dr := c.dr ++ (if s.owning then bufDrops else []) }
   let evs := dropEvs s bufDrops
   match op with
